@@ -527,6 +527,12 @@ class Exec:
         # framework objects first
         if obj_e == ("call", ("id", "evtStore"), []) and name == "retrieve" and op == "->":
             return self.do_retrieve(args, g)
+        if obj_e == ("call", ("id", "evtStore"), []) and name == "contains" and op == "->" and targs and len(args) == 1:
+            key = self.ev_expr(args[0], g)
+            if not isinstance(key, StrV):
+                raise IllTyped("contains<T>(key): key must be a string")
+            ctype = re.sub(r"^const\s+", "", targs[0] if isinstance(targs, (list, tuple)) else str(targs)).strip().rstrip("*").strip()
+            return Num("bool", self.ev.store_entry(ctype, key.s)["present"])
         if obj_e[0] == "id" and obj_e[1] == "iEvent" and not self._declared("iEvent"):
             if op != ".":
                 raise IllTyped("iEvent is a reference; use '.'")
@@ -926,7 +932,10 @@ class Exec:
         elif k == "using":
             pass          # name lookup only (type names are resolved with and without their namespace)
         elif k == "return":
-            if st[1]:
+            if st[1] and st[1].replace(" ", "") == "StatusCode::FAILURE":
+                self.fault(g, "status", "return StatusCode::FAILURE")
+                return
+            if st[1] and st[1].replace(" ", "") != "StatusCode::SUCCESS":
                 raise Unsupported("return with a value inside generated code")
             # the per-event function ends here WITHOUT a fault: nothing after it runs on this path (same mechanism as a fault,
             # but no fault record) and the path is remembered as 'ended early'
